@@ -299,3 +299,10 @@ Proof.
   exists (IntegerType (bs "foo") false []), (bs "foo"). split; [reflexivity|].
   intros [t' [HP HF]]. vm_compute in HP. inversion HP; subst. vm_compute in HF. discriminate.
 Qed.
+
+(** ... and for a value that is exactly one comma: quote comma quote is the separator ParseType splits at *)
+Lemma mysql_fix_refuted_comma : exists t s, FormatType t = Ok s /\ ~ fix_holds s.
+Proof.
+  exists (EnumType (bs "enum") [bs ","]), (bs "enum(',')"). split; [reflexivity|].
+  intros [t' [HP HF]]. vm_compute in HP. inversion HP; subst. vm_compute in HF. discriminate.
+Qed.
